@@ -745,7 +745,14 @@ impl PartitionedFileGroup {
             "No files would be left after deduplicating"
         );
         let mut commands = Vec::new();
-        let retained_file = Arc::new(self.to_keep.swap_remove(0));
+        // Prefer a regular file over a symbolic link (reported with --symbolic-links) as the
+        // link target: a hard link made to a symbolic link with a relative target would dangle.
+        let retained_idx = self
+            .to_keep
+            .iter()
+            .position(|f| !f.path.to_path_buf().is_symlink())
+            .unwrap_or(0);
+        let retained_file = Arc::new(self.to_keep.swap_remove(retained_idx));
         for dropped_file in self.to_drop {
             match strategy {
                 DedupeOp::SymbolicLink => commands.push(FsCommand::SoftLink {
